@@ -100,8 +100,12 @@ func randJPEGSegs(rng *core.RNG, max int, big bool) []imggen.JPEGSeg {
 		case 5:
 			out = append(out, imggen.JPEGSeg{Marker: 0xDD, Payload: []byte{0, byte(rng.Intn(256))}, Name: "DRI"})
 		case 6:
-			// APP2 that is not an ICC chunk (e.g. FlashPix), and one too short to hold the identifier
-			if rng.Bool() {
+			// APP2 that is not an ICC chunk (e.g. FlashPix), one too short to hold the identifier,
+			// and one that is exactly (a prefix of) the identifier with nothing or one byte after it
+			if rng.Intn(3) == 0 {
+				id := []byte("ICC_PROFILE\x00\x01")
+				out = append(out, imggen.JPEGSeg{Marker: 0xE2, Payload: append([]byte{}, id[:rng.Range(9, 13)]...), Name: "APP2id"})
+			} else if rng.Bool() {
 				out = append(out, imggen.JPEGSeg{Marker: 0xE2, Payload: append([]byte("FPXR\x00"), rng.Bytes(rng.Intn(60))...), Name: "APP2x"})
 			} else {
 				out = append(out, imggen.JPEGSeg{Marker: 0xE2, Payload: rng.Bytes(rng.Intn(13)), Name: "APP2s"})
